@@ -148,33 +148,41 @@ def r18a(ctx: Context) -> None:
                 rule.ok(f"{func.short}: {member}", f"{member} -> {code}")
     # scheme selection: argument, then configuration, then default
     setter = prog.method(RCH, "set_initial_state")
+    from sa.util import decision_chain_problems
+
     stored = None
     for node in walk_local(setter.node):
         if isinstance(node, ast.Assign) and any(isinstance(t, ast.Attribute) and t.attr == "value" for t in node.targets):
             stored = node
-    if stored is None or not isinstance(stored.value, ast.Name):
-        rule.fail(func_key(setter) + ": store", where(setter), "scheme name is not stored from a single local variable")
+    if stored is None:
+        rule.fail(func_key(setter) + ": store", where(setter), "set_initial_state no longer stores the chosen scheme name")
         return
-    var = stored.value.id
-    assigns = [n for n in walk_local(setter.node) if isinstance(n, ast.Assign) and any(isinstance(t, ast.Name) and t.id == var for t in n.targets)]
-    assigns.sort(key=lambda n: n.lineno)
-    kinds = []
-    for assign in assigns:
-        value = assign.value
-        text = norm(value)
-        namespace_params = {a.arg for a in setter.node.args.args if a.annotation is not None and "Namespace" in ast.unparse(a.annotation)}  # type: ignore[attr-defined]
-        if isinstance(value, ast.Attribute) and isinstance(value.value, ast.Name) and value.value.id in namespace_params:
-            kinds.append("argument")
-        elif isinstance(value, ast.Call) and "get_string_property" in text:
-            kinds.append("configuration")
-        elif "DEFAULT" in text.upper():
-            kinds.append("default")
-        else:
-            kinds.append("other:" + text)
-        if assign is not assigns[0]:
-            facts = guards_of(setter.node, assign)
-            if not any(pol and norm(test) == f"{var} is None" for test, pol in facts):
-                rule.fail(func_key(setter, assign), where(setter, assign), f"fallback '{text}' overrides a more specific layer: not guarded by '{var} is None'")
+    chooser, pick = setter, (lambda stmt: stmt.value if stmt is stored else None)
+    if isinstance(stored.value, ast.Call):
+        site = site_for(prog, setter, stored.value)
+        if site and len(site.targets) == 1 and site.targets[0].cls == setter.cls:
+            chooser, pick = site.targets[0], None  # the name is chosen by a helper: its returned value
+    namespace_params = {a.arg for a in chooser.node.args.args if a.annotation is not None and "Namespace" in ast.unparse(a.annotation)}  # type: ignore[attr-defined]
+    registry_default = {name for name, value in prog.cls(RCH).class_attrs.items() if isinstance(value, ast.Constant) and isinstance(value.value, str) and value.value in scheme_tables(prog)}
+
+    def layer_of(expr: ast.AST) -> Optional[str]:
+        if isinstance(expr, ast.Attribute) and isinstance(expr.value, ast.Name) and expr.value.id in namespace_params:
+            return "argument"
+        if isinstance(expr, ast.Call) and isinstance(expr.func, ast.Attribute) and expr.func.attr == "get_string_property":
+            return "configuration"
+        if isinstance(expr, ast.Attribute) and expr.attr in registry_default:
+            return "default"
+        if isinstance(expr, ast.Constant) and isinstance(expr.value, str) and expr.value in scheme_tables(prog):
+            return "default"
+        return None
+
+    chain_problems, deciding = decision_chain_problems(chooser, layer_of, ["argument", "configuration", "default"], pick)
+    if deciding == 0:
+        raise AnalysisError(f"{chooser.short}: no path chooses a scheme name")
+    if chain_problems:
+        rule.fail(func_key(chooser) + ": order", where(chooser), "scheme selection: " + chain_problems[0] + (f" (+{len(chain_problems) - 1} more)" if len(chain_problems) > 1 else ""))
+    else:
+        rule.ok(func_key(chooser) + ": order", f"{deciding} path(s): argument, then configuration, then the default scheme")
     # the argument layer must be able to be silent: no default on the argparse option
     adder = prog.method(RCH, "add_command_line_arguments")
     for node in walk_local(adder.node):
@@ -187,10 +195,6 @@ def r18a(ctx: Context) -> None:
                     rule.ok(akey, "no default: an absent --return-code-scheme leaves the decision to the configuration")
                 else:
                     rule.fail(akey, where(adder, node), f"--return-code-scheme is registered with default={norm(default)}: the argument is never None, so the scheme set by configuration is ignored")
-    if kinds != ["argument", "configuration", "default"]:
-        rule.fail(func_key(setter) + ": order", where(setter), f"scheme selection order is {kinds}, expected argument, configuration, default")
-    else:
-        rule.ok(func_key(setter) + ": order", "argument > configuration > default")
 
 
 EXIT_EXTERNALS = {"sys.exit", "os._exit", "builtins.exit", "builtins.quit", "os.abort", "os.kill"}
@@ -260,7 +264,9 @@ def r18b(ctx: Context) -> None:
     else:
         rule.fail(func_key(applier), where(applier), "apply_scheme does not return the mapping's entry for its argument (a default or a different key breaks the documented table)")
     # the scheme object comes from the registry entry of the chosen name, with the default name as fallback
-    picks = [n for n in walk_local(owner.node) if isinstance(n, ast.Subscript) and "available_schemes" in norm(n.value)]
+    registry_attrs = {name for name, value in prog.cls(RCH).class_attrs.items() if isinstance(value, ast.Dict) and value.values and all(isinstance(v, ast.Call) for v in value.values)}
+    lookers = [owner] + [t for site in prog.sites_in(owner) for t in site.targets if t.cls == owner.cls]
+    picks = [n for f in lookers for n in walk_local(f.node) if isinstance(n, ast.Subscript) and isinstance(n.value, ast.Attribute) and n.value.attr in registry_attrs]
     if picks:
         rule.ok(func_key(owner) + ": scheme lookup", f"registry[{norm(picks[0].slice)}]")
     else:
